@@ -71,7 +71,7 @@ func (g *G) intn(label string, lo, hi int) int { return rapid.IntRange(lo, hi).D
 // names: field names shared with the event generator. Identifier-like names first
 // (rapid prefers the front), hostile ones (dot inside, space, unicode, digit, empty) later.
 var names = []string{"message", "log", "level", "time", "ts", "stream", "service", "k8s_pod", "user", "id", "a", "b", "c", "data", "nested", "arr",
-	"user.name", "x y", "ключ", "A", "0", "msg"}
+	"user.name", "x y", "ключ", "A", "0", "q\"uote", "tab\tname", "msg"}
 
 var identNames = []string{"message", "log", "level", "time", "ts", "stream", "service", "k8s_pod", "user", "id", "a", "b", "c", "data"}
 
